@@ -46,6 +46,9 @@ func (w *c05World) refreshEnv() {
 // block runs the custom BeginBlockers at the next height.
 func (w *c05World) block(dt time.Duration, gas uint64) (string, string) {
 	h := w.f.Height() + 1
+	if nt := w.f.Time().Add(dt); nt.Before(w.f.Time()) {
+		return "C05/harness", "generated block time went backwards" // consensus guarantees monotonic block time
+	}
 	w.f.SetBlock(h, w.f.Time().Add(dt))
 	w.f.SetBlockGas(gas)
 	reward := w.isRewardHeight(h)
@@ -137,7 +140,8 @@ func c05Drive(rt *rapid.T, w *c05World, exec func(sdk.Msg) string, boundary func
 			mp := rapid.SampledFrom([]int64{1, 1, 2, 3, 1 << 20, math.MaxInt64}).Draw(rt, "maxProofs")
 			exp := int64(0)
 			if rapid.IntRange(0, 3).Draw(rt, "payOnce") == 0 {
-				exp = w.f.Height() + rapid.SampledFrom([]int64{14_401, 100_000, math.MaxInt64 / 8}).Draw(rt, "expiresIn")
+				// one day .. centuries .. beyond what time.Duration / UnixNano can represent (292 years)
+				exp = w.f.Height() + rapid.SampledFrom([]int64{14_401, 100_000, 5_256_000, 525_600_000, 1_540_000_000, 1_600_000_000, 2_100_000_000, 3_000_000_000, 10_000_000_000, math.MaxInt64 / 8}).Draw(rt, "expiresIn")
 			}
 			m := &storagetypes.MsgPostFile{Creator: a.Bech, Merkle: f.Merkle, FileSize: declared, MaxProofs: mp, Expires: exp, Note: "{}"}
 			r := exec(m)
@@ -259,7 +263,8 @@ func TestC05(t *testing.T) {
 				targets = append(targets, w.f.Height()+432_000, w.f.Height()+5_256_000)
 				th := targets[rapid.IntRange(0, len(targets)-1).Draw(rt, "jumpTarget")] + rapid.Int64Range(-6, 6).Draw(rt, "jumpDelta")
 				if th > w.f.Height()+1 {
-					w.f.SetBlock(th-1, w.f.Time().Add(time.Duration(th-w.f.Height())*6*time.Second))
+					// 6 s per block; computed in Unix seconds because a time.Duration cannot hold more than ~292 years
+					w.f.SetBlock(th-1, time.Unix(w.f.Time().Unix()+(th-w.f.Height())*6, 0).UTC())
 					w.logf("jump to height %d", th-1)
 					n += 6
 				}
